@@ -40,6 +40,8 @@ type Engine struct {
 	cellN   int
 	qn      int
 
+	extraAssumptions map[string][]string
+	extraCoverage    map[string]map[string]interface{}
 	trustedUsed map[string]bool
 	slessUsed   bool
 	allFuncs    map[*ssa.Function]bool
@@ -74,6 +76,7 @@ func NewEngine(repo string, patterns []string) (*Engine, error) {
 		typeTags: map[string]int{}, tagTypes: map[int]types.Type{}, strLits: map[string]int{},
 		typeCache: map[string]types.Type{}, pkgFilePos: map[string][]token.Pos{}, extraPkgs: map[string]*types.Package{},
 		loopCache: map[*ssa.Function]map[*ssa.BasicBlock]*loopInfo{}, trivial: map[string]int{},
+		extraAssumptions: map[string][]string{}, extraCoverage: map[string]map[string]interface{}{},
 		trustedUsed: map[string]bool{}, globalInit: map[string]globalInitInfo{},
 	}
 	for _, p := range pkgs {
